@@ -285,6 +285,37 @@ def r4(ctx):
             ctx.inst(R, "exec_read~read_at_internal:corruption-event", ok, ctx.w.bodies[a].span, "both report an injected corruption" if ok else
                      "the file API reports an injected corruption (fire_corruption -> FsCorruption barriers) but the ring executor flips the byte silently: "
                      "the same read has a different observable effect through the two APIs, and a barrier on FsCorruption misses ring-driven reads")
+    # a short read is short, not empty: the trimmed count is drawn from 1..n in both siblings (0 means end-of-file to every reader)
+    starts = {}
+    for fid in ("turmoil_io_uring::sim::exec_read", "turmoil_fs::shim::std::fs::File::read_at_internal"):
+        for fb in (ctx.w.family(fid) if fid in ctx.w.bodies else []):
+            for bb, i, s2 in fb.all_stmts():
+                r = s2["r"]
+                if i != "term" and r["k"] == "agg" and "Range" in str(r.get("adt", "")) and len(r["ops"]) == 2:
+                    c0 = op_const(r["ops"][0])
+                    # the range whose result replaces the byte count: its value flows into the function's result / the zeroing loop
+                    if c0 is not None and isinstance(c0.get("v"), int):
+                        starts.setdefault(fid, []).append((c0["v"], s2["s"]))
+    if len(starts) == 2:
+        def short_start(fid):
+            # the first sampled range in program order is the short-read draw (the corruption offset is drawn after it, from 0..n)
+            return sorted(starts[fid], key=lambda x: int(x[1].rsplit(":", 2)[-2]))[0]
+        sa, sb = short_start("turmoil_io_uring::sim::exec_read"), short_start("turmoil_fs::shim::std::fs::File::read_at_internal")
+        ok = sa[0] == sb[0] == 1
+        ctx.inst(R, "exec_read~read_at_internal:short-read-never-empty", ok, sa[1], "a short read returns at least one byte in both APIs" if ok else
+                 f"the short-read count is drawn from {sa[0]}..n by the ring and {sb[0]}..n by the file API: a ring read can report 0 bytes - end of file - although data exists at the "
+                 "offset, and a consumer that reads until 0 silently truncates the file")
+    # the flush that sync_probability injects comes after the write it belongs to, in the ring as in the file API: flushing first leaves the
+    # ring's own write in the pending log, and a crash loses what the same write through the file API keeps
+    for fid in ("turmoil_io_uring::sim::exec_write", "turmoil_fs::shim::std::fs::File::write_at_internal"):
+        for fb in (ctx.w.family(fid) if fid in ctx.w.bodies else []):
+            wf = [bb for bb, t in fb.calls("turmoil_fs::Fs::write_file")]
+            sf = [bb for bb, t in fb.calls(re.compile(r"^turmoil_fs::Fs::(sync_file|sync_file_data)$"))]
+            if wf and sf:
+                ok = all(any(fb.dominated_by_block(x, w) for w in wf) for x in sf)
+                ctx.inst(R, f"{fid.rsplit('::', 1)[1]}:write-before-injected-sync", ok, fb.site(sf[0]), "the injected flush follows the write" if ok else
+                         f"`{fid}` runs the spontaneous flush before it stages its own write: the write stays in the pending log and is lost by a crash that the same write through the "
+                         "other API survives")
     # O_DIRECT: buffer address, file offset and length are each tested against the alignment, by the ring as by the file API
     # (a test of a sum - `offset + len` - accepts a misaligned offset that the synchronous API refuses with EINVAL)
     for fid in ("turmoil_io_uring::sim::direct_io_aligned", "turmoil_fs::shim::std::fs::File::read_at_internal", "turmoil_fs::shim::std::fs::File::write_at_internal"):
@@ -322,7 +353,7 @@ def r4(ctx):
             ok = not before
             ctx.inst(R, f"page-cache-probe:{root.id}#{n}", ok, b.term(a)["s"], "cold / warm is decided before the page is inserted" if ok else
                      f"`{root.id}` inserts the page before probing the cache: a cold read always counts as a hit and completes without the disk latency")
-    ctx.floor(R, 14)
+    ctx.floor(R, 17)
 
 
 def r5(ctx):
